@@ -68,13 +68,21 @@ pub mod binder {
     }
     /// stores the enumeration `l`: TotalCount (present iff `cp`), buckets laid out gap-free; a bucket that holds
     /// nothing is absent (never created) or present and empty (emptied by unbind_token)
-    fn store(l: &List, cp: bool) {
+    /// (`empties`: None = either, symbolic; Some(x) = every empty bucket is present iff x, so that a CONCRETE count
+    /// gives concrete entries: the library's loops over the batch then keep concrete bounds)
+    fn store(l: &List, cp: bool, empties: Option<bool>) {
         model::declare_val(S_CNT, 0, &Key::TotalCount, cp, &l.n, kani::any());
         let mut b = 0;
         while b < NB {
             let part = bucket_of(l, b);
-            let bp: bool = kani::any();
-            kani::assume(bp || part.n == 0);
+            let bp: bool = match empties {
+                Some(x) => part.n > 0 || x,
+                None => {
+                    let a: bool = kani::any();
+                    kani::assume(a || part.n == 0);
+                    a
+                }
+            };
             model::declare_val(S_B + b, 0, &Key::TokenBucket(b as u32), bp, &part.to_addr_vec(), kani::any());
             b += 1;
         }
@@ -86,7 +94,7 @@ pub mod binder {
         let cp: bool = kani::any();
         // a count that was never written belongs to the empty registry
         kani::assume(cp || l.n == 0);
-        store(&l, cp);
+        store(&l, cp, None);
         l
     }
     /// the stored enumeration (buckets glued in order) and whether the stored shape is the gap-free one: every bucket
@@ -232,41 +240,14 @@ pub mod binder {
         end_checks(DECLARED);
     }
 
-
-    #[kani::proof]
-    #[kani::unwind(14)]
-    pub fn xp_unbind_dispatch() {
-        setup_world();
-        let e = Env::default();
-        let l = List::arb(0, MAXN);
-        kani::assume(l.nodup());
-        let cp: bool = kani::any();
-        kani::assume(cp || l.n == 0);
-        let token = Address::from_id(kani::any());
-        let mut k = 0;
-        while k <= MAXN {
-            if l.n == k {
-                store(&l.with_len(k), cp);
-                unbind_token(&e, &token);
-            }
-            k += 1;
-        }
-        let pre = l;
-        let p = pre.pos(token.id);
-        let (post, shape) = read_state();
-        prop!(post.is_swap_removed(&pre, p), "C20.xp.swap");
-        prop!(shape && post.nodup(), "C20.xp.inv");
-        witness!(p == 0 && pre.n == 6, "xp.first");
-        end_checks(DECLARED);
-    }
-    // XP-END
     /// one shape of the batch operation: `n` tokens enumerated (`written` = the count exists), batch of `m` tokens;
-    /// lengths CONCRETE on this path, all addresses symbolic
-    fn bind_tokens_shape(n: u32, written: bool, m: u32) {
+    /// `emptied` = the buckets that hold nothing exist (emptied by unbind_token) instead of never having been created;
+    /// lengths and presence CONCRETE on this path, all addresses symbolic
+    fn bind_tokens_shape(n: u32, written: bool, emptied: bool, m: u32) {
         let e = Env::default();
         let pre = List::arb(0, MAXN).with_len(n);
         kani::assume(pre.nodup());
-        store(&pre, written);
+        store(&pre, written, Some(emptied));
         let before = snapshot();
         let batch = List::arb(0, MAXN).with_len(m);
 
@@ -323,14 +304,14 @@ pub mod binder {
         setup_world();
         let shape: u8 = kani::any();
         if shape == 0 {
-            bind_tokens_shape(0, false, 3);
-            witness!(true, "bind_tokens.three_into_never_written_registry_cross_1_2");
+            bind_tokens_shape(0, false, false, 3);
+            witness!(true, "bind_tokens.three_into_never_written_registry_cross_1_2_new_buckets_0_and_1");
         } else if shape == 1 {
-            bind_tokens_shape(1, true, 2);
-            witness!(true, "bind_tokens.two_after_one_cross_1_2");
+            bind_tokens_shape(1, true, false, 2);
+            witness!(true, "bind_tokens.two_after_one_cross_1_2_new_bucket_1");
         } else {
-            bind_tokens_shape(2, true, 2);
-            witness!(true, "bind_tokens.two_after_two_start_at_the_edge");
+            bind_tokens_shape(2, true, true, 2);
+            witness!(true, "bind_tokens.two_after_two_start_at_the_edge_emptied_bucket_1_reused");
         }
     }
 
@@ -341,14 +322,14 @@ pub mod binder {
         setup_world();
         let shape: u8 = kani::any();
         if shape == 0 {
-            bind_tokens_shape(1, true, 4);
-            witness!(true, "bind_tokens.four_after_one_cross_1_2_and_3_4");
+            bind_tokens_shape(1, true, false, 4);
+            witness!(true, "bind_tokens.four_after_one_cross_1_2_and_3_4_new_buckets_1_and_2");
         } else if shape == 1 {
-            bind_tokens_shape(3, true, 3);
-            witness!(true, "bind_tokens.three_after_three_cross_3_4");
+            bind_tokens_shape(3, true, true, 3);
+            witness!(true, "bind_tokens.three_after_three_cross_3_4_emptied_bucket_2_reused");
         } else {
             witness!(true, "bind_tokens.five_after_one_is_above_the_batch_limit");
-            bind_tokens_shape(1, true, 5);
+            bind_tokens_shape(1, true, false, 5);
         }
     }
 
@@ -472,9 +453,9 @@ pub mod docs {
 
     pub const W: u32 = BUCKET_SIZE;
     pub const NB: usize = 3;
-    /// names of the universe = largest enumeration
-    pub const ND: usize = 6;
-    /// slot 0 Count, slots 1..=3 Bucket(b), slots 4..=9 Index(name_i)
+    /// names of the universe = largest enumeration: buckets of 2, 2 and 1 documents (both bucket edges 1|2 and 3|4)
+    pub const ND: usize = 5;
+    /// slot 0 Count, slots 1..=3 Bucket(b), slots 4..=8 Index(name_i)
     pub const S_CNT: usize = 0;
     pub const S_B: usize = 1;
     pub const S_IDX: usize = S_B + NB;
@@ -521,7 +502,7 @@ pub mod docs {
     }
     /// `room`: names of the universe that are certainly not stored
     pub fn declare_state(room: u32) -> Pre {
-        let names = [BytesN::<32>::arb(), BytesN::<32>::arb(), BytesN::<32>::arb(), BytesN::<32>::arb(), BytesN::<32>::arb(), BytesN::<32>::arb()];
+        let names = [BytesN::<32>::arb(), BytesN::<32>::arb(), BytesN::<32>::arb(), BytesN::<32>::arb(), BytesN::<32>::arb()];
         let mut i = 0;
         while i < ND {
             let mut j = i + 1;
@@ -531,26 +512,31 @@ pub mod docs {
             }
             i += 1;
         }
-        let docs = [Document::arb(), Document::arb(), Document::arb(), Document::arb(), Document::arb(), Document::arb()];
+        let docs = [Document::arb(), Document::arb(), Document::arb(), Document::arb(), Document::arb()];
         let count: u32 = kani::any();
         kani::assume(count + room <= ND as u32);
-        let pre = Pre { names, docs, count };
         let written: bool = kani::any();
         kani::assume(written || count == 0);
+        store(Pre { names, docs, count }, written)
+    }
+    /// stores the reference map: Count (present iff `written`), buckets laid out gap-free, Index(name_i) = i for the
+    /// stored names (a CONCRETE count gives entries of concrete shape)
+    fn store(pre: Pre, written: bool) -> Pre {
+        let count = pre.count;
         model::declare_val(S_CNT, 0, &Key::Count, written, &count, kani::any());
         let mut b = 0;
         while b < NB {
             let mut bucket: SVec<Entry> = SVec::new(&Env::default());
             let mut k = 0;
             while k < W as usize {
-                if ((2 * b + k) as u32) < count {
+                if 2 * b + k < ND && ((2 * b + k) as u32) < count {
                     bucket.push_back(pre.entry(2 * b + k));
                 }
                 k += 1;
             }
             // a bucket that holds nothing was never created or was emptied by remove_document
-            let bp: bool = kani::any();
-            kani::assume(bp || bucket.len() == 0);
+            let a: bool = kani::any();
+            let bp = bucket.len() > 0 || a;
             model::declare_val(S_B + b, 0, &Key::Bucket(b as u32), bp, &bucket, kani::any());
             b += 1;
         }
@@ -607,8 +593,7 @@ pub mod docs {
     }
     /// invariant D over the buckets: Count entries laid out gap-free; every entry carries a name of the universe whose
     /// Index is its GLOBAL index; every stored Index points (globally) at an entry with its own name
-    fn inv_now(names: &[BytesN<32>; ND]) -> bool {
-        let s = Stored::now();
+    fn inv_now(names: &[BytesN<32>; ND], s: &Stored) -> bool {
         let c = count_now();
         let mut ok = c <= ND as u32 && s.shape(c) && (model::slot(S_CNT).present || c == 0);
         let mut g = 0;
@@ -730,17 +715,14 @@ pub mod docs {
         // only the bucket at / BUCKET_SIZE is written (a NEW bucket exactly when a new document arrives at a count that
         // is a multiple of BUCKET_SIZE)
         prop!(bucket_present(&after, at / W) && other_buckets_same(&before, at / W, at / W), "C20.docs_buckets.set_document.only_the_bucket_of_the_index_written");
-        prop!(inv_now(&pre.names), "C20.docs_buckets.set_document.index_invariant_preserved");
+        prop!(inv_now(&pre.names, &s), "C20.docs_buckets.set_document.index_invariant_preserved");
         let ev = DocumentUpdated { name: name.clone(), uri: uri.clone(), document_hash: hash.clone(), timestamp: world().timestamp };
         prop!(model::n_events() == 1 && model::event_is(0, DocumentUpdated::EVENT_ID, &ev.event_words()), "C20.docs_buckets.set_document.one_exact_event");
         witness!(!known && pre.count == 0 && !before[S_CNT].present && !before[S_B].present, "set_document.initial_empty_state");
-        witness!(!known && pre.count == 2 && !before[S_B + 1].present, "set_document.new_bucket_1_created");
         witness!(!known && pre.count == 4 && !before[S_B + 2].present, "set_document.new_bucket_2_created");
         witness!(!known && pre.count == 2 && before[S_B + 1].present, "set_document.emptied_bucket_1_reused");
         witness!(!known && pre.count == 3, "set_document.fills_bucket_1");
-        witness!(!known && pre.count == 5, "set_document.fills_bucket_2");
-        witness!(known && i == 3 && pre.count == 6, "set_document.update_in_bucket_1");
-        witness!(known && i == 4 && pre.count == 5, "set_document.update_of_the_only_document_of_bucket_2");
+        witness!(known && i == 2 && pre.count == 5, "set_document.update_at_offset_0_of_bucket_1");
         end_checks(DECLARED);
     }
 
@@ -748,8 +730,28 @@ pub mod docs {
     #[kani::unwind(50)]
     pub fn remove_document_step() {
         setup_world();
-        let e = Env::default();
+        remove_document_from(declare_state(0));
+    }
+    #[kani::proof]
+    #[kani::unwind(50)]
+    pub fn xp_declare_only() {
+        setup_world();
         let pre = declare_state(0);
+        witness!(pre.count == 5, "xp.five");
+        end_checks(DECLARED);
+    }
+    #[kani::proof]
+    #[kani::unwind(50)]
+    pub fn xp_declare_inv() {
+        setup_world();
+        let pre = declare_state(0);
+        let s = Stored::now();
+        prop!(inv_now(&pre.names, &s), "C20.xp.inv");
+        witness!(pre.count == 5, "xp.five");
+        end_checks(DECLARED);
+    }
+    fn remove_document_from(pre: Pre) {
+        let e = Env::default();
         let i = pick();
         let name = pre.name(i);
         let before = snapshot();
@@ -790,16 +792,12 @@ pub mod docs {
         // than the one of the removed document and the last one are untouched
         prop!(s.shape(last as u32) && bucket_present(&after, last as u32 / W), "C20.docs_buckets.remove_document.last_bucket_shrinks_by_one");
         prop!(other_buckets_same(&before, i as u32 / W, last as u32 / W), "C20.docs_buckets.remove_document.other_buckets_untouched");
-        prop!(inv_now(&pre.names), "C20.docs_buckets.remove_document.index_invariant_preserved");
+        prop!(inv_now(&pre.names, &s), "C20.docs_buckets.remove_document.index_invariant_preserved");
         let ev = DocumentRemoved { name: name.clone() };
         prop!(model::n_events() == 1 && model::event_is(0, DocumentRemoved::EVENT_ID, &ev.event_words()), "C20.docs_buckets.remove_document.one_exact_event");
-        witness!(pre.count == 1, "remove_document.only_document");
-        witness!(pre.count == 3 && i == 0, "remove_document.removed_in_bucket_0_last_in_bucket_1_which_empties");
-        witness!(pre.count == 6 && i == 1, "remove_document.removed_in_bucket_0_last_in_bucket_2");
-        witness!(pre.count == 5 && i == 3, "remove_document.removed_in_bucket_1_last_in_bucket_2_which_empties");
-        witness!(pre.count == 6 && i == 2, "remove_document.removed_at_offset_0_of_bucket_1_last_in_bucket_2");
+        witness!(pre.count == 4 && i == 1, "remove_document.removed_in_bucket_0_last_in_bucket_1");
+        witness!(pre.count == 5 && i == 2, "remove_document.removed_at_offset_0_of_bucket_1_last_in_bucket_2_which_empties");
         witness!(pre.count == 4 && i == 2, "remove_document.removed_and_last_in_the_same_bucket");
-        witness!(pre.count == 6 && i == 5, "remove_document.removed_is_last");
         witness!(pre.count == 5 && i == 4, "remove_document.removed_is_last_and_alone_in_its_bucket");
         end_checks(DECLARED);
     }
@@ -820,8 +818,7 @@ pub mod docs {
             prop!(d == pre.doc(i), "C20.docs_buckets.getters.document_by_name_is_the_map");
             witness!(i == 2 && pre.count == 3, "lookups.by_name_only_document_of_bucket_1");
             witness!(i == 3, "lookups.by_name_last_of_bucket_1");
-            witness!(i == 5, "lookups.by_name_last_of_bucket_2");
-            witness!(i == 0, "lookups.by_name_first");
+            witness!(i == 4, "lookups.by_name_in_bucket_2");
         } else {
             let j: u32 = kani::any();
             let (nm, d) = get_document_by_index(&e, j);
@@ -829,8 +826,7 @@ pub mod docs {
             prop!(nm == pre.name(j as usize) && d == pre.doc(j as usize), "C20.docs_buckets.getters.document_by_global_index_is_the_enumeration");
             witness!(j == 1, "lookups.by_index_last_of_bucket_0");
             witness!(j == 2, "lookups.by_index_first_of_bucket_1");
-            witness!(j == 4 && pre.count == 5, "lookups.by_index_only_document_of_bucket_2");
-            witness!(j == 5, "lookups.by_index_last_of_bucket_2");
+            witness!(j == 4, "lookups.by_index_in_bucket_2");
         }
         let after = snapshot();
         let mut same = true;
@@ -875,7 +871,7 @@ pub mod docs {
         prop!(same, "C20.docs_buckets.getters.read_only");
         witness!(pre.count == 0 && !before[S_CNT].present, "getters.initial_empty_state");
         witness!(pre.count == 5 && b == 2, "getters.half_filled_bucket_2");
-        witness!(pre.count == 6 && b == 1, "getters.full_bucket_1");
+        witness!(pre.count == 5 && b == 1, "getters.full_bucket_1");
         witness!(pre.count == 2 && b == 1, "getters.bucket_above_the_last");
         end_checks(DECLARED);
     }
@@ -893,7 +889,7 @@ pub mod docs {
         let j: u32 = kani::any();
         let which: u8 = kani::any();
         witness!(pre.count == 5 && which == 0 && i == 0, "operations_accepted.remove_first_of_five");
-        witness!(pre.count == 4 && which == 1 && i == 5, "operations_accepted.set_opens_bucket_2");
+        witness!(pre.count == 4 && which == 1 && i == 4, "operations_accepted.set_opens_bucket_2");
         world().must_succeed = true;
         if which == 0 {
             kani::assume(pre.stored(i) && j < pre.count);
